@@ -13,6 +13,7 @@
 //   input:    {"mem": hex} | {"regions": [{"start": n, "hex": .., "fail": bool, "short": n?}]} | {"file": path}
 //             | {"mmap": path}
 //   api:      "list" | "callback"
+//   console:  bool   add the console module; messages logged during the scan are returned in "logs"
 //   abort_at: k        callback returns Abort at its k-th event (1-based)
 //   timeout_at: j      the j-th timeout check fires (needs hook); count_checks: bool counts the checks
 //
@@ -64,8 +65,24 @@ impl FragmentedMemory for Regions {
     }
 }
 
+thread_local! {
+    /// Messages logged by the console module during the scans of this thread (`"console": true`).
+    pub static CONSOLE_LOGS: std::cell::RefCell<Arc<Mutex<Vec<String>>>> =
+        std::cell::RefCell::new(Arc::new(Mutex::new(Vec::new())));
+}
+
+pub fn take_console_logs() -> Vec<String> {
+    CONSOLE_LOGS.with(|l| std::mem::take(&mut *l.borrow().lock().unwrap()))
+}
+
 pub fn build_compiler(case: &Value) -> Compiler {
     let mut b = CompilerBuilder::new();
+    if get_bool(case, "console") {
+        let logs = CONSOLE_LOGS.with(|l| l.borrow().clone());
+        b = b.add_module(boreal::module::Console::with_callback(move |s| {
+            logs.lock().unwrap().push(s);
+        }));
+    }
     if case["profile"].as_str() == Some("memory") {
         b = b.profile(CompilerProfile::Memory);
     }
@@ -343,6 +360,13 @@ pub fn scan_with(scanner: &Scanner, case: &Value) -> Value {
 pub fn run(case: &Value) -> Value {
     match compile(case) {
         Err(e) => json!({"compile_error": e}),
-        Ok(scanner) => scan_with(&scanner, case),
+        Ok(scanner) => {
+            let _ = take_console_logs();
+            let mut out = scan_with(&scanner, case);
+            if get_bool(case, "console") {
+                out["logs"] = json!(take_console_logs());
+            }
+            out
+        }
     }
 }
